@@ -76,12 +76,14 @@ PROVED = {
          "points as a library on generated good and systematically broken declarations and reading the tables back from the generated token "
          "streams (both front-ends compared), (b) enums compiled with the real macros and probed at run time.",
          "syn/quote/proc-macro2, rustc and macro hygiene are not modelled; duplicate variant names / reserved names are left to rustc (model mirrors the macro). "),
- "C01": ("PARTIAL (reader half proved). Theorem C01_reader_roundtrip_partial: for every strict configuration and every conforming encoded document "
-         "(Model/Encode.v rtree: arbitrary nesting depth, arbitrary payload bytes that decode to the value, every size-field width 1-8, any subset of "
-         "masters of unknown size) the reader yields exactly the document's items — Start/End pairs, values, offsets — then None; proved by nested "
-         "induction on the tree with the lazily emitted Ends as an invariant over the reader's stack; transferred to the buffered machine for every "
-         "capacity and chunking. Restricted to declared paths without global placeholders. The writer half (the writer's output is such an encoding) "
-         "is tied by correspondence (write-then-read of random conformant documents incl. boundary payload lengths, widths, Full, unknown sizes, raw tags).", ""),
+ "C01": ("Theorem C01_roundtrip_partial: for every strict configuration and every conforming document (arbitrary nesting depth, unsigned/signed/float/"
+         "UTF-8/binary values over their whole ranges, payloads of every length the width can carry, every explicit size width 1-8 or default options, any "
+         "subset of masters written with unknown size), writing it tag by tag succeeds at every call, emits exactly the structural encoding enc_forest, and "
+         "the strict reader yields exactly the written tags (masters as Start/End pairs), then None. Reader half (C01_reader_roundtrip_partial) holds for "
+         "any encoding choices incl. non-canonical payloads, with offsets; proved by nested induction on the tree with the lazily emitted Ends as an "
+         "invariant over the reader's stack; transferred to the buffered machine for every capacity and chunking. PARTIAL: declared paths without "
+         "global placeholders; Full items via C09_full_decomposes; raw tags, global elements and destination write scripts are covered by the "
+         "correspondence run (write-then-read of random conformant documents incl. boundary payload lengths, widths, Full, unknown sizes, raw tags).", ""),
  "C07": ("Theorems: the closing rule (count_ended = the largest k such that the k innermost open masters have unknown size and the outermost of them is "
          "ended by the element; nothing closes below a known-size master); C07_items_partial / C07_encoding_choices_irrelevant_partial: every conforming "
          "document reads as its items with each unknown-size master's End right before the next element outside of it or at the end of input, so two "
